@@ -283,6 +283,17 @@ def _analysis_entries(w: World):
         for n in ["avg_approval_score", "median_approval_score"]:
             E[n] = (lambda f: lambda: (f, dict(instance=w.inst, profile=w.prof)))(getattr(A, n))
         E["category_proportionality"] = lambda: (A.category_proportionality, dict(instance=w.inst, profile=w.prof, budget_allocation=w.alloc))
+
+        def uncategorised_instance():
+            # a hand-built instance whose projects carry categories while the instance lists none: the documented answer is a ValueError,
+            # and the caller's instance stays as it was (round 8, C20-r8B: the categories collected INTO the caller's instance)
+            inst2 = copy.deepcopy(w.inst)
+            inst2.categories = set()
+            byname = {p.name: p for p in inst2}
+            alloc2 = [byname[p.name] for p in w.alloc if p.name in byname]
+            return A.category_proportionality, dict(instance=inst2, profile=w.prof, budget_allocation=alloc2)
+
+        E["category_proportionality[instance lists no category]"] = uncategorised_instance
         E["percent_non_empty_handed"] = lambda: (A.percent_non_empty_handed, dict(instance=w.inst, profile=w.prof, budget_allocation=w.alloc))
         E["validate_price_system"] = lambda: (A.validate_price_system, dict(instance=w.inst, profile=w.listprof, budget_allocation=w.alloc, voter_budget=core.to_num(w.case.budget / max(1, len(w.case.ballots))), payment_functions=w.payment, stable=rng.random() < 0.3, exhaustive=rng.random() < 0.5))
         E["priceable"] = lambda: (A.priceable, dict(instance=w.inst, profile=w.listprof, budget_allocation=rng.choice([None, w.alloc]), stable=rng.random() < 0.3, max_seconds=20))
